@@ -1,6 +1,6 @@
 """C03 - user code runs exactly when it should, on the latest values (model equality)."""
 from __future__ import annotations
-from .runner import Result, Violation
+from .runner import Result, Violation, scaled
 from .gen_core import gen_case
 from . import model as M
 
@@ -20,7 +20,7 @@ BATCH = 25
 
 
 def generate(rng, tier, seed):
-    n = 500 if tier == "quick" else 8000
+    n = scaled(500 if tier == "quick" else 8000)
     return [gen_case(rng, f"c03_{seed}_{k}") for k in range(n)]
 
 
@@ -57,19 +57,28 @@ def compare_runs(case, run, mr, label="model"):
     return out
 
 
+_BASE = ({}, {"emulate_sampled_start": True}, {"emulate_stale": True}, {"emulate_sampled_start": True, "emulate_stale": True})
+EMULATIONS = tuple(f for f in _BASE if f) + tuple(dict(f, emulate_boundary_ref=True) for f in _BASE)
+BOUNDARY_REF_MSG = ("a reference selection inside a nested graph switched to an argument that is an unset reference produced outside "
+                    "the graph: inside the child it reads as a valid empty reference and is published, the readers lose their target "
+                    "(inline the selection keeps its previous target): (selector uid,t)=%s")
+
+
 def classify_with_emulations(case, flat, run, mism, compare=None):
     """The spec model disagrees with the trace. Re-run the model with the emulations of the recorded known
     findings switched on; if (and only if) the trace then matches exactly and the emulation actually produced
     the extra runs, the disagreement is that known finding. Anything else is an unclassified violation."""
     compare = compare or compare_runs
-    for flags in ({"emulate_sampled_start": True}, {"emulate_stale": True},
-                  {"emulate_sampled_start": True, "emulate_stale": True}):
+    for flags in EMULATIONS:
         mr2 = M.simulate(flat, **flags)
-        if not (mr2.stale or mr2.sampled or mr2.stale_armed):
+        if not (mr2.stale or mr2.sampled or mr2.stale_armed or mr2.boundary_refs):
             continue
         if compare(case, run, mr2):
             continue
         vs = []
+        if mr2.boundary_refs:
+            vs.append(Violation(BOUNDARY_REF_MSG % (mr2.boundary_refs[:3],), "nested-boundary-unset-reference-reads-valid-empty",
+                                {"selections": mr2.boundary_refs[:10]}))
         if mr2.sampled:
             vs.append(Violation(f"node with an all-Unchecked validity gate inside a nested graph ran at child start "
                                 f"although its boundary source never ticked: (uid,t)={mr2.sampled[:3]}",
